@@ -1,6 +1,7 @@
 import KitModel.SpiffeTA
 import KitModel.SpiffeTAShape
 import KitProofs.Lemmas.SpiffeTA
+import KitProofs.Lemmas.SpiffeTASim
 /-!
 Property C19, trust-bundle source (`crypto/spiffe/trustanchors/file.go`): the readiness discipline of
 `GetX509BundleForTrustDomain` / `CurrentTrustAnchors` / `Watch` against `Run`.  The source waits for
@@ -87,5 +88,32 @@ theorem bundle_results_correct {s : St} (hreach : Reach init s) :
     ¬ (s.wPend = true ∧ s.wHeld = true) := by
   have hi := inv_reach inv_init hreach
   exact ⟨hi.passed, hi.results, hi.closedRes, hi.excl⟩
+
+/-- **Trace inclusion for the bundle source is sound**: an accepted trace of observable events ends,
+for every state of the final (non-empty) set, a genuine run of the LTS exhibiting exactly those
+events with internal steps in between; the state is reachable. -/
+theorem ta_accept_sound {tr : List Ev} {mf : List St} (h : accept tr = (none, mf)) :
+    mf ≠ [] ∧ ∀ t ∈ mf, ∃ s0, TauStar init s0 ∧ TraceRun s0 tr t ∧ Reach init t := by
+  simp only [accept] at h
+  obtain ⟨hne, hall⟩ := acceptFrom_sound _ _ _ _ h
+  constructor
+  · apply hne
+    have : init ∈ close [init] := by
+      simp only [close]
+      exact closure_superset _ _ _ _ (by simp [insertNew])
+    intro h0; rw [h0] at this; simp at this
+  · intro t ht
+    obtain ⟨s0, hs0, htr⟩ := hall t ht
+    obtain ⟨s, hs, htau⟩ := close_sound hs0
+    simp only [List.mem_singleton] at hs
+    subst hs
+    exact ⟨s0, htau, htr, traceRun_reach (tauStar_reach (.refl _) htau) htr⟩
+
+/-- Non-vacuity: readers first, then `Run`, then the file appears — accepted; the same trace with a
+reader left pending although the source is up — rejected. -/
+example : (accept [.callBundle false, .callBundle true, .callRun, .quiet [0, 1], .file (.ver 1),
+      .ret 0 (.ok (some 1)), .ret 1 (.ok (some 1)), .quiet []]).1 = none ∧
+    (accept [.callBundle false, .callRun, .file (.ver 1), .quiet [0]]).1 = some 3 := by
+  decide
 
 end Kit.Spiffe.TA
